@@ -3,7 +3,10 @@ package main
 // C16 — the example JSON parser against encoding/json.
 //
 //   case:        C16 [bytes]
-//   observation: OT "C16" [parsley; encoding/json; OL conversions]
+//   observation: OT "C16" [parsley; encoding/json; OL conversions; built]
+//     built = the result of the parser BUILT FROM THE GRAMMAR TERM of coq/Json.v (c16Grammar below, the text Coq
+//             prints for (json_rules, json_root); lib/c16.py checks that it is that text) with harness/eng.go's
+//             builder, rendered like the parsley part: it must equal the parsley part (json.NewParser()).
 //     parsley / encoding/json = OT "Val" [value] | OT "Err" [OS text] | OT "Panic" []
 //     value = OT "Null" [] | OT "Bool" [OB b] | OT "Str" [OS bytes] | OT "Arr" [values] |
 //             OT "Obj" [OT "KV" [OS key; value] ... sorted by key]
@@ -28,11 +31,29 @@ import (
 
 	"github.com/opsidian/parsley/combinator"
 	"github.com/opsidian/parsley/examples/json/json"
+	"github.com/opsidian/parsley/parser"
 	"github.com/opsidian/parsley/parsley"
 	"github.com/opsidian/parsley/text"
 )
 
 func init() { subcommands["c16"] = c16 }
+
+// (json_rules, json_root) of coq/Json.v, as printed by Coq
+const c16Grammar = `([PName [118; 97; 108; 117; 101] (PChoice [PTerm (TLit (LString false)); PTerm (TLit LFloat); PTerm (TLit LInteger); PSeq SeqOf (ISelect 1) false None [PTerm (TRune 91); PSeq (SSepBy true) IArray false None [PLeftTrim WsSpacesNl (PRef 0); PLeftTrim WsSpaces (PTerm (TRune 44))]; PLeftTrim WsSpacesNl (PTerm (TRune 93))]; PSeq SeqOf (ISelect 1) false None [PTerm (TRune 123); PSeq (SSepBy true) IObject false None [PLeftTrim WsSpacesNl (PSeq SeqOf INone false None [PTerm (TLit (LString false)); PLeftTrim WsSpaces (PTerm (TRune 58)); PLeftTrim WsSpacesNl (PRef 0)]); PLeftTrim WsSpaces (PTerm (TRune 44))]; PLeftTrim WsSpacesNl (PTerm (TRune 125))]; PTerm (TLit (LBool [116; 114; 117; 101] [102; 97; 108; 115; 101])); PTerm (TLit (LNil [110; 117; 108; 108]))])], PSeq SeqOf (ISelect 0) false None [PRightTrim WsSpacesNl (PLeftTrim WsSpacesNl (PRef 0)); PEnd])`
+
+var c16GrammarTerm = ParseTerm(c16Grammar)
+
+// the parser built from the grammar term (fresh for every document, like json.NewParser())
+func c16Built() parsley.Parser {
+	st := &engStats{active: map[[2]int]int{}}
+	b := &engBuilder{st: &st, memo: true}
+	rules := c16GrammarTerm.Args[0].List()
+	b.rules = make([]parser.Func, len(rules))
+	for i, rt := range rules {
+		b.rules[i] = parser.Func(b.build(rt).Parse)
+	}
+	return b.build(c16GrammarTerm.Args[1])
+}
 
 var c16FloatRe = regexp.MustCompile(`^(?:[-+]?[0-9]*\.[0-9]+(?:[eE][-+]?[0-9]+)?)`)
 
@@ -81,7 +102,7 @@ func c16Value(v interface{}, enc bool) string {
 	}
 }
 
-func c16Parsley(data []byte, p func() parsley.Parser) (out string) {
+func c16Parsley(data []byte, mk func() parsley.Parser) (out string) {
 	defer func() {
 		if r := recover(); r != nil {
 			out = OPanic
@@ -90,8 +111,7 @@ func c16Parsley(data []byte, p func() parsley.Parser) (out string) {
 	f := text.NewFile("doc.json", data)
 	fs := parsley.NewFileSet(f)
 	ctx := parsley.NewContext(fs, text.NewReader(f))
-	s := combinator.Sentence(text.Trim(p()))
-	res, err := parsley.Evaluate(ctx, s)
+	res, err := parsley.Evaluate(ctx, mk())
 	if err != nil {
 		return OT("Err", OStr(err.Error()))
 	}
@@ -149,5 +169,6 @@ func c16Convs(raw []byte) string {
 // C16 [bytes]
 func c16(t *Term) string {
 	data := t.Args[0].Bytes()
-	return OT("C16", c16Parsley(data, json.NewParser), c16Enc(data), c16Convs(data))
+	example := func() parsley.Parser { return combinator.Sentence(text.Trim(json.NewParser())) }
+	return OT("C16", c16Parsley(data, example), c16Enc(data), c16Convs(data), c16Parsley(data, c16Built))
 }
